@@ -91,8 +91,8 @@ def gen_series(r, tier='quick', **force):
                     tab[k][(s, t, v)] = code
     normal = np.cross(rowc, colc)
     acq_pat = force.get('acq', r.choice(['asc', 'desc', 'interleaved', 'irregular', 'equal', 'inconsistent', 'none', 'partial']))
-    tr_pat = r.choice(['same', 'same', 'vary', 'none'])
-    if ordering in ('guess_vol', 'guess_file', 'none') and tr_pat == 'vary':
+    tr_pat = r.choice(['same', 'same', 'vary', 'none', 'jitter'])
+    if ordering in ('guess_vol', 'guess_file', 'none') and tr_pat in ('vary', 'jitter'):
         tr_pat = 'same'
     pe = r.choice(['ROW', 'COL', 'vary', 'none'])
     slice_t = {'asc': list(range(S)), 'desc': list(range(S - 1, -1, -1)),
@@ -139,6 +139,9 @@ def gen_series(r, tier='quick', **force):
                     meta['RepetitionTime'] = 2000.0
                 elif tr_pat == 'vary':
                     meta['RepetitionTime'] = 2000.0 + 100 * ((s + t + v) % 2)
+                elif tr_pat == 'jitter':
+                    # not the same in all files, though only just (the last digits scanners write vary)
+                    meta['RepetitionTime'] = 2000.0 + 0.003 * ((s + 2 * t + 3 * v) % 4)
                 if pe in ('ROW', 'COL'):
                     meta['InPlanePhaseEncodingDirection'] = pe
                 elif pe == 'vary':
